@@ -59,3 +59,43 @@ def neighbour_tie(ctx, max_len=3):
     ctx.errors.extend(errs)
     for i in mism[:3]:
         ctx.tie_mismatch('neighbour table (Grid.nbrs)', {'shape': meta[i][0], 'periodic': list(meta[i][1])}, meta[i][2], None)
+
+
+def reused_adjacency_stream(ctx, n):
+    """One periodic_neighbours object used for several arrays of different extents (and, between them, for the
+    same array again): every run must equal the run with a fresh adjacency object for that array alone."""
+    from astrodendro import Dendrogram
+    from astrodendro.dendrogram import periodic_neighbours
+    rng = ctx.rng('reused-adjacency')
+    for _ in range(n):
+        nd = rng.choice([1, 1, 2, 2, 3])
+        axes = [a for a in range(nd) if rng.random() < 0.6] or [rng.randrange(nd)]
+        arg = axes[0] if (len(axes) == 1 and rng.random() < 0.5) else axes
+        nb = periodic_neighbours(arg)
+        history = []
+        for step in range(rng.randint(2, 4)):
+            shape = [rng.randint(1, 9) if nd == 1 else rng.randint(1, 5) for _ in range(nd)]
+            if step and rng.random() < 0.3:
+                shape = history[rng.randrange(len(history))]['shape']
+            npix = int(np.prod(shape))
+            vals = list(range(1, npix + 1))
+            rng.shuffle(vals)
+            if rng.random() < 0.4:
+                vals = [v // 2 for v in vals]
+            arr = np.array(vals, dtype=float).reshape(shape)
+            minv = float(rng.choice([0, 0, npix // 3]))
+            history.append({'shape': shape, 'vals': vals, 'min_value': minv})
+            try:
+                d1 = Dendrogram.compute(arr, min_value=minv, neighbours=nb)
+                d2 = Dendrogram.compute(arr.copy(), min_value=minv, neighbours=periodic_neighbours(arg))
+            except Exception as e:
+                ctx.oracle_failure({'stream': 'reused-adjacency', 'axes': arg, 'history': history}, ['compute raised %r' % (e,)])
+                break
+            ctx.count('reused_adjacency_runs')
+            ctx.case_done(None, ('reuse', tuple(shape), tuple(vals), str(arg)) if len(d2) >= 3 else None)
+            h1, h2 = impl.impl_hierarchy(d1, tuple(shape)), impl.impl_hierarchy(d2, tuple(shape))
+            if h1 != h2 or d1.index_map.tolist() != d2.index_map.tolist():
+                ctx.oracle_failure({'stream': 'reused-adjacency', 'axes': arg, 'history': history},
+                                   ['with a periodic_neighbours object used before for other arrays the hierarchy is %s, with a '
+                                    'fresh one %s' % (h1, h2)])
+                break
